@@ -32,6 +32,7 @@ func init() {
 		rule{name: "P-nilsrc", run: ruleNilSrc},
 		rule{name: "P-exec", run: rulePExec},
 		rule{name: "TERM", run: ruleTermExec},
+		rule{name: "S-reset", run: ruleSReset},
 	)
 	register("C09", "P-dec", nil, rule{name: "P-dec", run: rulePDec}, rule{name: "ACC", run: ruleACC})
 	register("C14", "P-insp", nil, rule{name: "P-insp", run: rulePInsp}, rule{name: "T-tmpl", run: ruleTTmplScripts})
